@@ -20,8 +20,8 @@ BASE_LOGS = [
 ]
 
 
-# all seven types, several messages of each, two source ids
-RICH_LOG = [['m', K.ALL_TYPES[i % 7], i % 2, (80 + 4 * i) if K.ALL_TYPES[i % 7] in K.TIMED else None] for i in range(15)]
+# all eight types (incl. type 0), several messages of each, two source ids
+RICH_LOG = [['m', K.ALL_TYPES[i % len(K.ALL_TYPES)], i % 2, (80 + 4 * i) if K.ALL_TYPES[i % len(K.ALL_TYPES)] in K.TIMED else None] for i in range(17)]
 
 
 def alphabet(spec, rng=None, size=10):
